@@ -305,9 +305,10 @@ func (v *SemVer) ToString(b io.Writer, s px.FormatContext, g px.RDetect) {
 	case 's':
 		f.ApplyStringFlags(b, val, f.IsAlt())
 	case 'p':
-		utils.WriteString(b, `SemVer(`)
-		utils.PuppetQuote(b, val)
-		utils.WriteByte(b, ')')
+		bld := bytes.NewBufferString(`SemVer(`)
+		utils.PuppetQuote(bld, val)
+		bld.WriteByte(')')
+		f.ApplyStringFlags(b, bld.String(), false)
 	default:
 		panic(s.UnsupportedFormat(v.PType(), `sp`, f))
 	}
